@@ -267,6 +267,20 @@ func init() {
 		return p.bytesEqTerm(bytesOf(p, a[0]), bytesOf(p, a[1]))
 	}
 	models["bytes.Equal"] = models["internal/bytealg.Equal"]
+	// compiler intrinsic with a panicking Go body
+	models["crypto/internal/constanttime.boolToUint8"] = func(p *Path, c *frame, pos token.Pos, fn *ssa.Function, a []Value) Value {
+		return p.ts.Ite(a[0].(*Term), p.intConst(1, tUint8), p.intConst(0, tUint8))
+	}
+	// ConstantTimeCompare(x, y): 1 iff equal length and equal content (timing is not modelled)
+	ctc := func(p *Path, c *frame, pos token.Pos, fn *ssa.Function, a []Value) Value {
+		x, y := bytesOf(p, a[0]), bytesOf(p, a[1])
+		if len(x) != len(y) {
+			return p.intConst(0, tInt)
+		}
+		return p.ts.Ite(p.bytesEqTerm(x, y), p.intConst(1, tInt), p.intConst(0, tInt))
+	}
+	models["crypto/subtle.ConstantTimeCompare"] = ctc
+	models["crypto/internal/fips140/subtle.ConstantTimeCompare"] = ctc
 	models["internal/bytealg.Compare"] = func(p *Path, c *frame, pos token.Pos, fn *ssa.Function, a []Value) Value {
 		x := p.mkString(bytesOf(p, a[0]))
 		y := p.mkString(bytesOf(p, a[1]))
